@@ -303,8 +303,13 @@ WriteFloatContract(ev) ==
               ELSE IF v.cls = "inf" THEN V(r.out = (IF v.neg THEN << CMinus >> ELSE << >>) \o o.inf, "C15", "infinity not written as [-]inf string")
               ELSE LET sc == ScanComplete("float", f, WFAsPF(o), r.out, Len(r.out)) IN
                    IF sc.v = "U" THEN << >>
-                   ELSE IF sc.v # "A" THEN << << (IF Radix(f) = 10 \/ IsPow2Radix(Radix(f)) THEN "C08" ELSE "C07"),
-                                                "output is not a number of the format: " \o sc.why >> >>
+                   ELSE IF sc.v # "A" THEN
+                        \* not a numeral of the format: what lexical wrote cannot be read back (C08), and it does not denote the
+                        \* float either, which is what the writer's own property demands (C02 / C06 / C07)
+                        LET own == IF Radix(f) = 10 /\ ExponentBase(f) = 10 THEN (IF IsDefaultDigits(o) THEN "C02" ELSE "C14")
+                                   ELSE IF IsPow2Radix(Radix(f)) THEN "C06" ELSE "C07" IN
+                        << << own, "output is not a number of the format: " \o sc.why >> >>
+                        \o (IF own # "C07" THEN << << "C08", "output is not a number of the format: " \o sc.why >> >> ELSE << >>)
                    ELSE IF sc.neg # v.neg THEN << << "C15", "sign of the output differs from the sign of the value" >> >>
                    ELSE IF v.cls = "zero" THEN V(Layout(sc, f).n = 0, "C15", "zero written with non-zero digits")
                    ELSE WriteFloatFiniteWhy(ev, f, o, sc) \o WriteFloatLayoutWhy(ev, f, o, sc))
